@@ -1,6 +1,6 @@
 """Per-property registry: Lean module + theorems (proof obligations), translator items,
 the suite that runs correspondence and the oracle search."""
-from props import c01, c02, c03, c04, c05, c06, c07, c08, c09, c10, c11, c12, c13, c19, c20
+from props import c01, c02, c03, c04, c05, c06, c07, c08, c09, c10, c11, c12, c13, c14, c15, c16, c17, c18, c19, c20
 
 TRUSTED_BASE = [
     "Lean 4.33 kernel; axioms limited to propext, Classical.choice, Quot.sound (audited by #print axioms on every run)",
@@ -84,6 +84,11 @@ _reg("C10", c10.run)
 _reg("C11", c11.run)
 _reg("C12", c12.run)
 _reg("C13", c13.run)
+_reg("C14", c14.run)
+_reg("C15", c15.run)
+_reg("C16", c16.run)
+_reg("C17", c17.run)
+_reg("C18", c18.run)
 _reg("C19", c19.run,
      theorems=["NirVerif.C19.neuron_IF", "NirVerif.C19.neuron_LI", "NirVerif.C19.neuron_LIF", "NirVerif.C19.weight_rank",
                "NirVerif.C19.padding_string", "NirVerif.C19.padding_bytes", "NirVerif.C19.cuba_w_in"],
